@@ -458,3 +458,11 @@ def _h3_variant(prop, job_name):
 _h3_variant('C03', 'restat_with_deps'); _h3_variant('C10', 'restat_with_deps'); _h3_variant('C01', 'restat_then_deps')
 for _j in CHECKS['C19']['jobs']:
     if _j['name'] == 'restat_then_deps_leftovers': _j['reach'] = ['compared']      # (no output of this shape lives in a directory: the dry run cannot be stopped by a failing mkdir)
+
+# ---- third session: shapes and faults suggested by the fourth wave of independently written changes (seeded/*-D) and by what their authors noticed on the unchanged tree
+SCENARIOS += ['dyndep_input_in_pool', 'phony_mixed_restat', 'pruned_depfile_dir']     # 41 .. 43
+CHECKS['C06']['jobs'] += _mode_jobs('MODE_SCHED', [41], reach=('built', 'parallel'), bounds='a statement in a depth-2 pool that is ready when the build starts and that a dyndep file loaded mid-build names as an input of another statement; -j in {1,2,3}, every completion order')
+CHECKS['C06']['jobs'] += _mode_jobs('MODE_SCHED', [2], extra=['WITH_JOBSERVER', 'STAT_MAY_FAIL'], suffix='_tokens_statfail', reach=('tokens-success', 'tokens-failure', 'stat-failed'), bounds='jobserver pool of 0..2 explicit tokens plus the implicit one; one stat() call after the first command start may fail with an I/O error')
+CHECKS['C01']['jobs'] += _hist_jobs('CHECK_C01', 2, 3, [42])
+CHECKS['C03']['jobs'] += _hist_jobs('CHECK_C03', 2, 3, [42], reach=('built', 'minimality-checked'))
+CHECKS['C04']['jobs'] += _mode_jobs('MODE_SCHED', [43], suffix='_sched', reach=('built',), bounds='one invocation from the empty tree, -j in {1,2,3}, every completion order; one command prunes empty directories (the depfile directory is empty again once ninja has read and removed a deps=gcc depfile)')
